@@ -21,7 +21,9 @@ RULE = ("enumeration: scenario = (numprocesses 1-3, worker behaviour in "
         "k of the fault-free run x every victim x {exit 0, exit 3, killed "
         "by SIGKILL} is one case.  histories: <= 30 ops from {stop, restart, "
         "rm, quit, start, incr, decr, set, reload, deaths, faults, checks, "
-        "time}.  Non-trivial = the stop overlapped a stubborn worker or an "
+        "time}; on-demand family: one on-demand watcher on a real managed "
+        "socket (+ optionally a plain one), client connections as socket "
+        "events.  Non-trivial = the stop overlapped a stubborn worker or an "
         "injected death, or a non-start request / check followed a completed "
         "stop; distinct by hash of the case.")
 ASSUMPTIONS = [
@@ -29,7 +31,9 @@ ASSUMPTIONS = [
     "compared with real processes by vfw/conformance.py",
     "completion of a stop is observed through its waiting reply (or "
     "quiescence for non-waiting requests)",
-    "on_demand watchers are not generated (excluded by the statement)",
+    "on-demand family: the managed socket is a real CircusSocket; a 'conn' "
+    "op is the socket event; the harness accepts the pending connections on "
+    "the workers' behalf when a worker of the on-demand watcher is spawned",
 ]
 EPS = 1e-6
 STOPPERS = ('stop', 'rm', 'quit', 'restart')
@@ -52,20 +56,35 @@ def execute(case):
     viols = []
     classes = set()
     names = [wc["name"] for wc in case["watchers"]]
+    ondemand = set(wc["name"] for wc in case["watchers"]
+                   if wc.get("on_demand"))
     removed = set()
     stopped_since = {}        # name -> (time, len(spawn_log)) after a stop
     tracked = {}              # req.idx -> (cmd, props)
     sent_deaths = {}          # req.idx -> len(death_log) when it was sent
     sent_nsig = {}            # req.idx -> len(signal_log) when it was sent
     pre_nsig = [0]
+    pre_conn = [(0, 0)]
     snapshots = {}            # req.idx -> kernel facts at completion
     done = set()
     nontrivial = [False]
 
-    def later_starter(req):
-        return [r for r in w.requests
-                if r.idx > req.idx and (r.command in STARTERS or
-                                        r.command in ('add',))]
+    sent_conn = {}            # req.idx -> (len(conn_log), pending) at send
+
+    def later_starter(req, name=None):
+        later = [r for r in w.requests
+                 if r.idx > req.idx and (r.command in STARTERS or
+                                         r.command in ('add',))]
+        cmd_, props_ = tracked.get(req.idx, (None, {}))
+        tg = [name] if name is not None else (
+            [props_["name"]] if props_.get("name") in names else names)
+        if req.idx in sent_conn and any(t_ in ondemand for t_ in tg):
+            # a socket event that was waiting when the request was sent, or
+            # arrived later, may start the on-demand watchers again
+            n0, pend0 = sent_conn[req.idx]
+            if pend0 or len(h.conn_log) > n0:
+                later = later + ['socket-event']
+        return later
 
     def snapshot(req):
         """Kernel facts at the instant the stop-type request completed."""
@@ -74,6 +93,7 @@ def execute(case):
         targets = [props["name"]] if props.get("name") in names \
             else list(names)
         snap = {"t": w.loop.time(), "targets": {}, "nspawn": len(k.spawn_log),
+                "pending_conns": h.pending_conns,
                 "overtaken": bool(later_starter(req)) and cmd != 'quit'}
         ndeaths = sent_deaths[req.idx]
         snap["early_dead"] = set(d["pid"] for d in k.death_log[:ndeaths])
@@ -174,7 +194,13 @@ def execute(case):
             if stub or ctx != 'plain':
                 nontrivial[0] = True
                 classes.add('stop-overlapped-stubborn-or-death')
-            if cmd in ('stop', 'rm', 'quit') and not later_starter(req):
+            if cmd in ('stop', 'rm', 'quit') and \
+                    not later_starter(req, name) \
+                    and not (name in ondemand and (
+                        snap["pending_conns"] or
+                        any(t_ >= snap["t"] - EPS for t_, _ in h.conn_log))):
+                # (an on-demand watcher with a connection still waiting has
+                # a socket event pending: it may start again)
                 stopped_since[name] = (snap["t"], snap["nspawn"])
             if cmd == 'rm':
                 removed.add(name)
@@ -221,6 +247,7 @@ def execute(case):
         k.apply_due()
         pre_deaths[0] = len(k.death_log)
         pre_nsig[0] = len(k.signal_log)
+        pre_conn[0] = (len(h.conn_log), h.pending_conns)
 
     def on_op(h_, i, op):
         if op[0] == 'req':
@@ -237,6 +264,7 @@ def execute(case):
                 tracked[req.idx] = (cmd, props)
                 sent_deaths[req.idx] = pre_deaths[0]
                 sent_nsig[req.idx] = pre_nsig[0]
+                sent_conn[req.idx] = pre_conn[0]
                 if req.reply() is not None and props.get("waiting") and \
                         req.idx not in snapshots:
                     snapshot(req)
@@ -246,6 +274,11 @@ def execute(case):
         elif op[0] == 'check' and stopped_since:
             classes.add('check-after-stop')
             nontrivial[0] = True
+        elif op[0] == 'conn' and h.socks:
+            # the socket event: on-demand watchers may start from now on
+            for n_ in ondemand:
+                stopped_since.pop(n_, None)
+            classes.add('socket-event')
         account()
         # stopped stays stopped
         for name, (t0, n0) in list(stopped_since.items()):
@@ -262,7 +295,12 @@ def execute(case):
 
     try:
         h.start()
+        for n_ in ondemand:
+            # never started: no worker until the first connection
+            stopped_since[n_] = (w.loop.time(), len(k.spawn_log))
         h.run(on_op, before_op)
+        if ondemand and [r for r in k.spawn_log if r["owner"] in ondemand]:
+            classes.add('on-demand-started')
         ok = h.settle(checks=0)
         account()
         if ok and not w.exited:
@@ -444,6 +482,37 @@ def _strategy():
     return case()
 
 
+def _ondemand_strategy():
+    from hypothesis import strategies as st
+    base = _strategy()
+
+    @st.composite
+    def case(draw):
+        c = draw(base)
+        wc = c["watchers"][0]
+        wc["on_demand"] = True
+        wc["use_sockets"] = True
+        wc["numprocesses"] = draw(st.integers(1, 3))
+        wc["warmup_delay"] = draw(st.sampled_from([0, 0.05, 0.3, 0.3]))
+        c["sockets"] = [draw(st.sampled_from(['unix', 'inet']))]
+        if draw(st.booleans()):
+            c["arbiter"] = {"warmup_delay": draw(st.sampled_from(
+                [0.05, 0.3]))}
+        # socket events, usually followed by the periodic check that
+        # notices them and by a little progress of the on-demand start
+        for _ in range(draw(st.integers(1, 3))):
+            pos = draw(st.integers(0, len(c["ops"])))
+            burst = [["conn", 0]]
+            if draw(st.integers(0, 4)) > 0:
+                burst.append(["check"])
+                burst += draw(st.lists(st.sampled_from(
+                    [["idle"], ["step", 1], ["step", 2], ["next"],
+                     ["adv", 0.05]]), max_size=2))
+            c["ops"][pos:pos] = burst
+        return c
+    return case()
+
+
 def plan(tier, seed):
     nps = [1, 2, 3] if tier == 'thorough' else [1, 2]
     scen = [(np_, b, c, pre)
@@ -458,6 +527,8 @@ def plan(tier, seed):
     n = 1200 if tier == "quick" else 12000
     specs += [{"kind": "random", "seed": seed * 100 + i, "n": n}
               for i in range(8)]
+    specs += [{"kind": "ondemand", "seed": seed * 100 + 40 + i, "n": n}
+              for i in range(4)]
     specs += [{"kind": "live", "seed": seed * 100 + 60 + i,
                "n": 3 if tier == 'quick' else 40} for i in range(2)]
     return specs
@@ -480,7 +551,9 @@ def run_shard(spec):
         res["violations"] = found
         res["exhaustive"] = True
         return res
-    found = hyp_search(_strategy(), execute, stats, spec["seed"], spec["n"],
+    strat = _ondemand_strategy() if spec["kind"] == 'ondemand' \
+        else _strategy()
+    found = hyp_search(strat, execute, stats, spec["seed"], spec["n"],
                        known=spec["known"])
     res = stats.as_dict()
     res["violations"] = found
